@@ -232,8 +232,20 @@ struct IoOps {
             std::string bytes;
             readFileBytes(p, bytes);
             r.dg.u64(bytesDigest(bytes));
-            if (binary) r.ioFiles.push_back({bytesDigest(bytes), {(int64_t)bytes.size(), (int64_t)RB::rec}});
-            for (size_t k = 0; k <= bytes.size(); ++k) {
+            // every cut offset of the file; only for files of several KiB (graphs of the rare large runs) the middle is sampled
+            std::vector<size_t> cuts;
+            const bool sampled = bytes.size() > 768;
+            if (!sampled) { for (size_t k = 0; k <= bytes.size(); ++k) cuts.push_back(k); }
+            else {
+                const size_t edge = 3 * (binary ? RB::rec : 16);
+                for (size_t k = 0; k <= edge; ++k) cuts.push_back(k);
+                sim::Rng cr((uint64_t)op.a * 7919 + bytes.size());
+                for (int t = 0; t < 160; ++t) cuts.push_back(edge + 1 + (size_t)cr.below(bytes.size() - 2 * edge - 1));
+                for (size_t k = bytes.size() - edge; k <= bytes.size(); ++k) cuts.push_back(k);
+                r.res.probes.inc("cutall_big_file_sampled");
+            }
+            if (binary && !sampled) r.ioFiles.push_back({bytesDigest(bytes), {(int64_t)bytes.size(), (int64_t)RB::rec}});
+            for (size_t k : cuts) {
                 writeFileBytes(p2, bytes.substr(0, k));
                 bool threw = false;
                 std::unique_ptr<G> loaded;
